@@ -24,7 +24,7 @@ CODES = ["Esc", "Enter", "Backspace", "Up", "Down", "Home", "PageUp", "PageDown"
 RULE = ("a case is one (UI state, event) pair executed through the real update(); states are explored breadth-first "
         "from the start-up state (selection 0, COUNT, descending, no search) for every table size 0..N over the event "
         "alphabet {chars j k g q a c v . f l - / x Q A J space, Esc Enter Backspace Up Down Home PageUp PageDown End Tab "
-        "Left Right Delete, Tick(0), Tick(80), Error}; search queries are expanded up to the stated length; distinct = "
+        "Left Right Delete, Tick(0), Tick(80), Error, and ten keys with Ctrl / Shift / Alt modifiers}; search queries are expanded up to the stated length; distinct = "
         "distinct (state, event) pairs; non-trivial = the event changed the state; in addition random walks (800 x 80 steps quick, 4000 x 400 thorough) "
         "feed each step the state the previous one produced: search queries far beyond the breadth-first bound, characters of 1-4 bytes, regular-expression "
         "metacharacters, long runs of navigation keys; and draw sessions (480 x 40 steps quick, 6000 x 120 thorough) in which every event is followed by the real "
@@ -41,16 +41,24 @@ ASSUMPTIONS = [
 ]
 
 
+# keys with modifiers, as crossterm delivers them (Ctrl-C, Ctrl-U, Shift-J, Alt-Enter, ...): the handler looks at the key
+# code only, so a modified key counts as its base key for the documented-keys rule; a flag that changes on a modified key
+# whose base key is not documented for it is a violation like any other
+MODDED = [{"char": "c", "mods": "c"}, {"char": "q", "mods": "c"}, {"char": "u", "mods": "c"}, {"char": "d", "mods": "c"}, {"char": "J", "mods": "s"},
+          {"char": "f", "mods": "a"}, {"code": "Up", "mods": "s"}, {"code": "Down", "mods": "c"}, {"code": "Enter", "mods": "a"}, {"code": "Backspace", "mods": "c"}]
+
+
 def events():
-    ev = [{"char": c} for c in CHARS] + [{"code": c} for c in CODES] + [{"tick": 0}, {"tick": 80}, {"error": True}]
+    ev = [{"char": c} for c in CHARS] + [{"code": c} for c in CODES] + [{"tick": 0}, {"tick": 80}, {"error": True}] + MODDED
     return ev
 
 
 def ev_name(e):
+    m = {"c": "Ctrl-", "s": "Shift-", "a": "Alt-"}.get(e.get("mods", ""), "")
     if "char" in e:
-        return "char:" + e["char"]
+        return m + "char:" + e["char"]
     if "code" in e:
-        return e["code"]
+        return m + e["code"]
     if "tick" in e:
         return f"Tick({e['tick']})"
     return "Error"
@@ -371,7 +379,7 @@ def run(tier, seed, binary, pool):
     rep.extra["query_bound"] = qmax
     rep.extra["query_alphabet_expanded"] = "".join(sorted(expand))
     rep.extra["mandatory"] = ["rows:0", "rows:1", "rows:3", "event:char:j", "event:char:k", "event:Up", "event:Down",
-                              "event:Tick(80)", "event:Error"]
+                              "event:Tick(80)", "event:Error", "event:Ctrl-char:c", "event:Shift-Up"]
     complete = explore(rep, binary, pool, sizes, qmax, expand, 2_000_000, hidden=(0, 2) if tier == "quick" else (0, 1, 3))
     rep.exhaustive = complete
     deep_walks(rep, binary, pool, sizes, 800 if tier == "quick" else 4000, 80 if tier == "quick" else 400, seed)
